@@ -395,7 +395,7 @@ def run(chk: Check):
     runs = []
     nprog = chk.pick(6, 40)
     for pi in range(nprog):
-        prog = random_program(chk.rng, chk.rng.choice([2, 2, 3, 4]))
+        prog = random_program(chk.rng, chk.rng.choice(chk.pick([2, 2, 3, 4], [2, 2, 3, 4, 5, 6, 8])))
         # (a) systematic: lock / clock / write yield points, pre-emption bound 2
         d = dsched.DFS(bound=2, max_runs=chk.pick(60, 400))
         while d.more():
